@@ -930,11 +930,21 @@ class Models(object):
     def pinv(self, m, **kw):
         raise AnalysisError('linalg.pinv needs a rule specific model')
 
-    def norm(self, x, *a, **kw):
+    def norm(self, x, ord=None, axis=None, **kw):
         x = self.np_asarray(x)
-        if a or kw:
-            raise AnalysisError('linalg.norm with ord/axis')
-        return opaque('norm', x.ravel().items())
+        if axis is not None or kw:
+            raise AnalysisError('linalg.norm with axis/keepdims')
+        if isinstance(ord, (int, Fr)) and ord == 2 and x.ndim == 1:
+            ord = None
+        if ord == 'fro' and x.ndim == 2:
+            ord = None
+        if ord is None and x.ndim <= 2:
+            # Euclidean / Frobenius norm: depends on the multiset of entries only
+            name = 'norm2(%s)' % ', '.join(sorted(repr(v) for v in x.ravel().items()))
+        else:
+            name = 'norm[ord=%r,ndim=%d](%s)' % (ord, x.ndim, ', '.join(repr(v) for v in x.ravel().items()))
+        ndarr.POSITIVE_ATOMS.add(name)
+        return Poly.sym(name)
 
     def fft(self, x, *a, **kw):
         raise AnalysisError('np.fft.fft needs a rule specific model')
